@@ -273,6 +273,22 @@ class Engine(FuncVerifier):
                             right = self.seq_slice(x, seq, i + 1, n - i - 1)
                             x.heap.set_lseq(r, self.seq_concat(x, left, right))
                         continue
+                if isinstance(t, ast.Subscript) and isinstance(t.slice, ast.Slice) and t.slice.step is None:
+                    base = self.ev(t.value, x)
+                    if base.kind == "ref" and base.ty and base.ty[0] == "list":
+                        r = x.regref(rval(base.v))
+                        seq = x.heap.lseq(r)
+                        n = seq.n
+
+                        def clamp(v):
+                            return z3.If(v < 0, 0, z3.If(v > n, n, v))
+                        lo = clamp(self.norm_index(ival(self.ev(t.slice.lower, x).v), n)) if t.slice.lower is not None else z3.IntVal(0)
+                        hi = clamp(self.norm_index(ival(self.ev(t.slice.upper, x).v), n)) if t.slice.upper is not None else n
+                        cut = z3.If(hi > lo, hi - lo, 0)
+                        left = self.seq_slice(x, seq, z3.IntVal(0), lo)
+                        right = self.seq_slice(x, seq, lo + cut, n - lo - cut)
+                        x.heap.set_lseq(r, self.seq_concat(x, left, right))
+                        continue
                 raise EngineError("del of unsupported target")
         return self.simple(st, go)
 
